@@ -61,6 +61,10 @@ func (s *sim) targetHash(h uint64, t int) string {
 	if len(k) == 0 {
 		return string(s.w.unknownHashes[t%len(s.w.unknownHashes)])
 	}
+	if t == 50 {
+		// the proposal of that height built most recently
+		return string(k[len(k)-1].Header.Hash)
+	}
 	return string(k[t%len(k)].Header.Hash)
 }
 
@@ -1384,6 +1388,9 @@ func (s *sim) execFetch(op Op) {
 		return
 	}
 	i := op.D % len(s.fetchReqs)
+	if op.D == 99 {
+		i = len(s.fetchReqs) - 1 // the latest request
+	}
 	fr := s.fetchReqs[i]
 	s.fetchReqs = append(s.fetchReqs[:i], s.fetchReqs[i+1:]...)
 	for _, ph := range s.knownAt(fr.H) {
